@@ -506,7 +506,7 @@ def configs(tier, gd):
         X.write_cfg(gd, "mc_pair", 3, 2, 3, 2, PAIR_CORE, rest(PAIR_CORE), INVS)
         runs.append(("mc", "mc_pair", None, None,
                      "exhaustive: documents of <=3 nodes with <=2 of the %d features (all pairs)" % len(rest(PAIR_CORE))))
-        runs += sim_configs(gd, 10, 1500, C.seed())
+        runs += sim_configs(gd, 10, 300, C.seed())
     return runs
 
 
@@ -584,7 +584,7 @@ def main(tier, replay=None):
         trans += r.generated
         # TLC's simulator evaluates the invariants on every successor it generates (e.g. all the
         # declaration variants of a finished tree): replay a seeded subsample of what is new
-        cap = None if kind == "mc" else (10000 if tier == "quick" else 80000)
+        cap = None if kind == "mc" else (10000 if tier == "quick" else 30000)
         if cap is not None and len(fresh) > cap:
             import zlib
             ranked = sorted(fresh, key=lambda raw: (zlib.crc32(("%d:" % sd).encode() + raw.encode()), raw))
